@@ -181,6 +181,16 @@ class PriorityLock(Lock, BasePriorityObject, LockHelper):
                 self._waiters.remove(entry)
                 if not self._locked:
                     self._wake_up_first()
+                elif self._owning is not None:
+                    owner = self._owning()
+                    if owner is not None and owner is not task:
+                        # We stopped waiting without getting the lock, so the priority
+                        # which its owner inherited from us falls back.  Propagate
+                        # again, so that the owner is re-keyed where it is queued.
+                        try:
+                            owner.propagate_priority(self)  # type: ignore[attr-defined]
+                        except AttributeError:  # pragma: no cover
+                            pass
 
     def _take_lock(self, task: TaskAny) -> None:
         assert self._owning is None
